@@ -13,7 +13,7 @@ RELS = ['R1', 'R22', 'R103']
 NAMESPACES = ['LOG', 'A', 'ns_1', '3d', 'Dog']
 ACTIONS = ['f', 'LogInfo', 'op_1', 'return', 'while', 'any', 'create']
 PARAMS = ['a', 'message', 'p_2', 'value', 'and', 'from']
-PHRASES = ["'one'", "'is owned by'", "'x'", "'precedes'"]
+PHRASES = ["'one'", "'is owned by'", "'x'", "'precedes'", "'goes on\nthe next line'"]
 INTS = ['0', '1', '42', '007', '123456789012345678901234567890']
 REALS = ['3.14', '.5', '1.', '1e5', '2E-3', '3.14f', '1.e+2L', '0.0']
 STRINGS = ['"abc"', '""', '"a b"', '"/* no comment */"', '"// none"', '"it\'s"', '"1 + 2; end if"', '"åäö"']
